@@ -16,7 +16,11 @@ SPEC = dict(
          'swap/assignment, free list acyclic and disjoint from live items, every live and free item inside a block of the table and not overlapping another one, '
          'live + free == slots of the blocks with the slot count of each block derived from its allocation size under ASan - no slot count, default capacity or other tuning '
          'constant of the implementation is assumed). When the private members the walker reads cannot be compiled against (renamed), the harness is built with '
-         '-DVERIF_NO_PRIVATE: all public-API oracles stay, the walker and the chain-position classes are absent (evidence field degraded_no_private_access).',
+         '-DVERIF_NO_PRIVATE: all public-API oracles stay, the walker and the chain-position classes are absent (evidence field degraded_no_private_access). '
+         'PoolMap is additionally instantiated with mapped types that have no user-provided default constructor (long; a plain struct of int/long/pointer/double/byte array '
+         'whose members the harness all sets non-zero) in the "pmapv" histories and in "chains": the value of every entry created from a key alone (append(key), insert(pos,key)) '
+         'is compared with the reference map\'s V() (every member zero) before it is written, counted separately for recycled slots (address handed out before) and never-used slots, '
+         'and every stored plain-struct value is re-read member by member on each iteration.',
     assumptions=['ASan/UBSan red zones; library ASSERTs enabled (-DDEBUG)',
                  'self-assignment / self-swap / self-argument bulk operations are not generated here (property C04)',
                  'HashMap/PoolMap::front() const and back() const cannot be instantiated and are not called; the non-const overloads are'],
@@ -25,20 +29,25 @@ SPEC = dict(
         job('hmap', 'h_hash', 'hmap', cases={Q: 30000, T: 120000}, procs=16),
         job('hset', 'h_hash', 'hset', cases={Q: 30000, T: 120000}, procs=16),
         job('pmap', 'h_hash', 'pmap', cases={Q: 20000, T: 80000}, procs=16),
+        # PoolMap with mapped types that have no user-provided default constructor (long / plain struct): value of entries created from a key only
+        job('pmap-plain', 'h_hash', 'pmapv', cases={Q: 9000, T: 48000}, procs=16),
         job('chains', 'h_hash', 'chains', cases=-1, scale={Q: 5, T: 6}, procs=16),
         # the same generators against the -O2 build without sanitizers (the configuration the library ships in): model + structural walker only
         job('hmap-O2', 'h_hash', 'hmap', variant='plain', cases={Q: 3000, T: 20000}, procs=8, args=['--start', '500000']),
         job('hset-O2', 'h_hash', 'hset', variant='plain', cases={Q: 3000, T: 20000}, procs=8, args=['--start', '500000']),
         job('pmap-O2', 'h_hash', 'pmap', variant='plain', cases={Q: 3000, T: 20000}, procs=8, args=['--start', '500000']),
+        job('pmap-plain-O2', 'h_hash', 'pmapv', variant='plain', cases={Q: 2000, T: 12000}, procs=8, args=['--start', '500000']),
     ],
     floors={Q: dict(ops=2500000, lookups=70000000, structure_walks=2500000, walks_with_block_sizes=2000000, insert_existing_key=800000, eq_true_nonempty=200000, eq_false_same_size=200000, op_swap=130000,
                     op_copy_construct=90000, op_assign=50000, op_bulk_append=18000, op_bulk_remove=18000, op_remove_value=23000, op_remove_key=200000, op_remove_it=150000,
                     op_insert_pos=300000, op_clear=150000, max_chain_length=40,
-                    **{'set:chain_remove_pos': 5, 'set:insert_positions': 5, 'set:key_families': 12, 'set:capacities': 7, 'set:chain_lengths': 40, 'set:equality_relations': 6,
+                    plain_value_new_entry_recycled_slot=300000, plain_value_new_entry_fresh_slot=150000,
+                    **{'set:value_families': 3, 'set:plain_value_insert_paths': 2, 'set:chain_remove_pos': 5, 'set:insert_positions': 5, 'set:key_families': 12, 'set:capacities': 7, 'set:chain_lengths': 40, 'set:equality_relations': 6,
                        'set:swap_classes': 8, 'set:assign_classes': 4, 'set:slots_per_block': 1}),
             T: dict(ops=23000000, lookups=650000000, structure_walks=21000000, walks_with_block_sizes=8000000, insert_existing_key=7000000, eq_true_nonempty=1700000, eq_false_same_size=1900000, op_swap=1100000,
                     op_copy_construct=800000, op_assign=450000, op_bulk_append=150000, op_bulk_remove=150000, op_remove_value=200000, op_remove_key=2000000, op_remove_it=1400000,
                     op_insert_pos=2800000, op_clear=1800000, max_chain_length=45,
-                    **{'set:chain_remove_pos': 5, 'set:insert_positions': 5, 'set:key_families': 12, 'set:capacities': 7, 'set:chain_lengths': 45, 'set:equality_relations': 6,
+                    plain_value_new_entry_recycled_slot=1600000, plain_value_new_entry_fresh_slot=800000,
+                    **{'set:value_families': 3, 'set:plain_value_insert_paths': 2, 'set:chain_remove_pos': 5, 'set:insert_positions': 5, 'set:key_families': 12, 'set:capacities': 7, 'set:chain_lengths': 45, 'set:equality_relations': 6,
                        'set:swap_classes': 8, 'set:assign_classes': 4, 'set:slots_per_block': 1})},
 )
